@@ -113,6 +113,10 @@ def run(P, rep, tier):
         for ev, nm in f.calls():
             if nm:
                 csites.setdefault(nm, []).append((f, ev))
+    rep.explanation = ('%d (switch -> signal) rows; every store to a signal in %d live encoder functions is one obligation; dependence = '
+                       'control (enclosing conditions, call-site intersection), value (locals by reaching definitions, fields by least fixpoint).' %
+                       (sum(len(x[1]) for x in TABLE), len(live)))
+    rep.analysed = {'switches': sorted({s for sw, _ in TABLE for s in sw}), 'signals': [s for _, sg in TABLE for s, _ in sg]}
     rep.assumptions = ['signals are assigned member by member (no memcpy of the enclosing struct carries a non-zero value in)',
                        'zero-filled objects (EB_NEW / calloc) start with every tool off']
 
